@@ -306,3 +306,75 @@ class LogTarget(object):
         if kind == "custom":
             raise CustomError("custom failure", 7)
         raise ValueError("plain failure")
+
+
+class Resource(object):
+    """a closable resource for the connection clean-up check"""
+    def __init__(self, name):
+        self.name = name
+        self.closed = 0
+
+    def close(self):
+        self.closed += 1
+
+
+@server.expose
+@server.behavior(instance_mode="session")
+class ResTarget(object):
+    registry = None        # set by the harness: dict with 'instances' (weakrefs), 'resources' (strong refs by connection key)
+
+    def __init__(self):
+        import weakref
+        ResTarget.registry["instances"].append(weakref.ref(self))
+        self.mine = []
+
+    def track(self, label, n):
+        out = []
+        for i in range(n):
+            r = Resource("%s-%d" % (label, i))
+            ResTarget.registry["resources"].append((label, r, "tracked"))
+            current_context.track_resource(r)
+            self.mine.append(r)
+            out.append(r.name)
+        return out
+
+    def untrack_last(self, label):
+        if not self.mine:
+            return None
+        r = self.mine.pop()
+        current_context.untrack_resource(r)
+        for i, (lab, res, st) in enumerate(ResTarget.registry["resources"]):
+            if res is r:
+                ResTarget.registry["resources"][i] = (lab, res, "untracked")
+        return r.name
+
+    def sec(self):
+        from Pyro5 import errors
+        raise errors.SecurityError("not allowed")
+
+    def ping(self, t):
+        return t
+
+
+@server.expose
+@server.behavior(instance_mode="session")
+class ResTargetInit(ResTarget):
+    """tracks a resource already in its constructor (the instance is created while the first request is being dispatched)"""
+    def __init__(self):
+        ResTarget.__init__(self)
+        r = Resource("init")
+        ResTarget.registry["resources"].append((ResTarget.registry.get("current_label", "?"), r, "tracked"))
+        current_context.track_resource(r)
+        self.mine.append(r)
+
+    def track(self, label, n):
+        return ResTarget.track(self, label, n)
+
+    def untrack_last(self, label):
+        return ResTarget.untrack_last(self, label)
+
+    def sec(self):
+        return ResTarget.sec(self)
+
+    def ping(self, t):
+        return t
